@@ -195,6 +195,8 @@ func tryReplay(cfg *runCfg, g *Gen, o *Obligation, dir string) (bool, string) {
 	switch g.pkgShort(o.fx.fn) {
 	case "idl":
 		return replayIDL(cfg, g, o, dir)
+	case "varlink":
+		return replayVarlink(cfg, g, o, dir)
 	}
 	return false, "replay: no replay template for this function; no concrete failing input reproduced on the real code\n"
 }
@@ -395,4 +397,68 @@ func runOverlayTest(cfg *runCfg, pkgDir, testFile, run string, race bool) (strin
 	cmd.Stderr = &buf
 	err := cmd.Run()
 	return buf.String(), err
+}
+
+// replayVarlink: routing / error-reply obligations of the service side are replayed through the real
+// HandleMessage / ReplyError with recording fakes and an oracle written from the property statements.
+func replayVarlink(cfg *runCfg, g *Gen, o *Obligation, dir string) (bool, string) {
+	fx := o.fx
+	key := g.relKey(fx.fn)
+	kind, strTerm := "", ""
+	part := o.FailPart
+	if part < 0 || part >= len(o.Parts) {
+		part = 0
+	}
+	switch key {
+	case "(*Service).HandleMessage":
+		kind = "handle"
+		if t, ok := o.Parts[part].ghost["gMethod"]; ok {
+			strTerm = t
+		}
+	case "(*Call).ReplyError":
+		kind = "replyerror"
+		strTerm = "p!name"
+	case "(*Service).orgvarlinkserviceDispatch":
+		kind = "handle"
+		strTerm = "p!methodname"
+	default:
+		return false, "replay: no replay template for this function; no concrete failing input reproduced on the real code\n"
+	}
+	var rep strings.Builder
+	model := "a.b"
+	if strTerm != "" {
+		if s, _, _, ok := modelString(o, part, strTerm, nil, dir, cfg.seed); ok {
+			model = s
+		}
+	}
+	if key == "(*Service).orgvarlinkserviceDispatch" {
+		model = "org.varlink.service." + model
+	}
+	fmt.Fprintf(&rep, "solver candidate: %q\n", model)
+	tmpl, err := os.ReadFile(filepath.Join(cfg.verif, "replay_templates", "varlink_routing_test.go.tmpl"))
+	if err != nil {
+		return false, "replay: template missing\n"
+	}
+	src := strings.NewReplacer("@@OBLIGATION@@", o.Name, "@@MODEL@@", strconv.Quote(model), "@@KIND@@", strconv.Quote(kind)).Replace(string(tmpl))
+	testFile := filepath.Join(dir, sanitizeFile(o.Name)+"_test.go")
+	os.WriteFile(testFile, []byte(src), 0o644)
+	out, rerr := runOverlayTest(cfg, "varlink", testFile, "TestVerifReplay", false)
+	fmt.Fprintf(&rep, "replay test: %s\n", testFile)
+	confirmed := false
+	for _, l := range strings.Split(out, "\n") {
+		if strings.HasPrefix(l, "REPLAY-FAIL") {
+			confirmed = true
+			rep.WriteString(l + "\n")
+		}
+		if strings.HasPrefix(l, "REPLAY-DONE") {
+			rep.WriteString(l + "\n")
+		}
+	}
+	if !confirmed {
+		if rerr != nil {
+			fmt.Fprintf(&rep, "replay run: %v\n%s\n", rerr, firstLines(out, 20))
+		}
+		rep.WriteString("replay: the candidate (and its neighbourhood) did not fail on the real code\n")
+	}
+	return confirmed, rep.String()
 }
